@@ -1,0 +1,425 @@
+//go:build verif
+
+package ecs
+
+// Verification hooks. This file is only compiled with build tag `verif`.
+// It adds read-only inspection of the World's hidden state and changes no existing code.
+
+import (
+	"fmt"
+	"sort"
+	"strings"
+	"unsafe"
+)
+
+type verifTable struct {
+	arch  *archetype
+	node  int32
+	table int32
+}
+
+// verifTables lists all tables (active and inactive) of the world, named by (node index, table index).
+func (w *World) verifTables() []verifTable {
+	res := []verifTable{}
+	ln := w.nodes.Len()
+	var i int32
+	for i = 0; i < ln; i++ {
+		nd := w.nodes.Get(i)
+		if nd.HasRelation {
+			n := nd.archetypes.Len()
+			var j int32
+			for j = 0; j < n; j++ {
+				res = append(res, verifTable{nd.archetypes.Get(j), i, j})
+			}
+		} else if nd.archetype != nil {
+			res = append(res, verifTable{nd.archetype, i, 0})
+		}
+	}
+	return res
+}
+
+// VerifCheckInvariants walks the hidden state and returns the first broken structural invariant.
+func (w *World) VerifCheckInvariants() (err error) {
+	defer func() {
+		if r := recover(); r != nil {
+			err = fmt.Errorf("invariant walk panicked: %v", r)
+		}
+	}()
+
+	// ---- entity pool -------------------------------------------------------------------
+	p := &w.entityPool
+	if len(p.entities) < 1 || p.entities[0].id != 0 {
+		return fmt.Errorf("pool: reserved zero entity damaged: %v", p.entities[:1])
+	}
+	free := map[eid]bool{}
+	cur := p.next
+	var k uint32
+	for k = 0; k < p.available; k++ {
+		if cur == 0 || int(cur) >= len(p.entities) {
+			return fmt.Errorf("pool: free list ends after %d of %d entries (at id %d)", k, p.available, cur)
+		}
+		if free[cur] {
+			return fmt.Errorf("pool: free list visits id %d twice", cur)
+		}
+		free[cur] = true
+		cur = p.entities[cur].id
+	}
+	alive := 0
+	for i := 1; i < len(p.entities); i++ {
+		if free[eid(i)] {
+			continue
+		}
+		if p.entities[i].id != eid(i) {
+			return fmt.Errorf("pool: id %d is not on the free list but stores id %d", i, p.entities[i].id)
+		}
+		alive++
+	}
+	if alive != p.Len() {
+		return fmt.Errorf("pool: %d alive entries, Len() says %d", alive, p.Len())
+	}
+
+	// ---- entity index --------------------------------------------------------------------
+	if len(w.entities) != len(p.entities) {
+		return fmt.Errorf("index: %d index entries for %d pool entries", len(w.entities), len(p.entities))
+	}
+	for i := 1; i < len(p.entities); i++ {
+		idx := &w.entities[i]
+		if free[eid(i)] {
+			if idx.arch != nil {
+				return fmt.Errorf("index: dead id %d still points to a table", i)
+			}
+			continue
+		}
+		if idx.arch == nil {
+			return fmt.Errorf("index: alive id %d has no table", i)
+		}
+		if !idx.arch.IsActive() {
+			return fmt.Errorf("index: alive id %d points to an inactive table", i)
+		}
+		if idx.index >= idx.arch.len {
+			return fmt.Errorf("index: alive id %d has row %d in a table of length %d", i, idx.index, idx.arch.len)
+		}
+		if e := idx.arch.GetEntity(idx.index); e != p.entities[i] {
+			return fmt.Errorf("index: alive id %d: row %d holds %v, pool says %v", i, idx.index, e, p.entities[i])
+		}
+	}
+
+	// ---- tables and nodes ------------------------------------------------------------------
+	tables := w.verifTables()
+	names := map[*archetype]string{}
+	total := 0
+	regCount := w.registry.Count()
+	for _, t := range tables {
+		a := t.arch
+		name := fmt.Sprintf("table %d/%d", t.node, t.table)
+		names[a] = name
+		nd := w.nodes.Get(t.node)
+		if a.node != nd {
+			return fmt.Errorf("%s: node pointer does not lead back to its node", name)
+		}
+		if !nd.IsActive {
+			return fmt.Errorf("%s: lives in a node that is marked inactive", name)
+		}
+		if a.Mask != nd.Mask || a.HasRelationComponent != nd.HasRelation || a.RelationComponent != nd.Relation {
+			return fmt.Errorf("%s: access header (mask/relation) differs from its node", name)
+		}
+		if a.len > a.cap {
+			return fmt.Errorf("%s: len %d > cap %d", name, a.len, a.cap)
+		}
+		if uint32(a.entityBuffer.Len()) != a.cap {
+			return fmt.Errorf("%s: entity buffer has %d slots, cap is %d", name, a.entityBuffer.Len(), a.cap)
+		}
+		if a.entityPointer != a.entityBuffer.Addr().UnsafePointer() {
+			return fmt.Errorf("%s: entity pointer does not point to the entity buffer", name)
+		}
+		if len(a.layouts) == 0 || a.basePointer != unsafe.Pointer(&a.layouts[0]) {
+			return fmt.Errorf("%s: base pointer does not point to the layouts (%d layouts)", name, len(a.layouts))
+		}
+		if len(a.layouts) < regCount {
+			return fmt.Errorf("%s: %d layouts for %d registered component types", name, len(a.layouts), regCount)
+		}
+		inNode := Mask{}
+		for ci, id := range nd.Ids {
+			inNode.Set(id, true)
+			lay := &a.layouts[id.id]
+			buf := a.buffers[ci]
+			if lay.pointer != buf.Addr().UnsafePointer() {
+				return fmt.Errorf("%s: layout of component %d does not point to its buffer", name, id.id)
+			}
+			tp := nd.Types[ci]
+			size, align := tp.Size(), uintptr(tp.Align())
+			size = (size + (align - 1)) / align * align
+			if uintptr(lay.itemSize) != size {
+				return fmt.Errorf("%s: item size of component %d is %d, type needs %d", name, id.id, lay.itemSize, size)
+			}
+			if bi, ok := a.indices.Get(id.id); !ok || int(bi) != ci {
+				return fmt.Errorf("%s: buffer index of component %d is wrong", name, id.id)
+			}
+			if lay.itemSize == 0 {
+				continue
+			}
+			if uint32(buf.Len()) != a.cap {
+				return fmt.Errorf("%s: column %d has %d slots, cap is %d", name, id.id, buf.Len(), a.cap)
+			}
+			// rows [len, cap) must be all zero: this is what makes new components read as zero
+			start := uintptr(a.len) * uintptr(lay.itemSize)
+			end := uintptr(a.cap) * uintptr(lay.itemSize)
+			if end > start {
+				bytes := unsafe.Slice((*byte)(unsafe.Add(lay.pointer, start)), end-start)
+				for bi, b := range bytes {
+					if b != 0 {
+						return fmt.Errorf("%s: column %d: free row %d is not zeroed (byte %d = %#x)",
+							name, id.id, (start+uintptr(bi))/uintptr(lay.itemSize), (start+uintptr(bi))%uintptr(lay.itemSize), b)
+					}
+				}
+			}
+		}
+		for li := range a.layouts {
+			if !inNode.Get(id(uint8(li))) && a.layouts[li].pointer != nil {
+				return fmt.Errorf("%s: layout %d is set but the component is not part of the table", name, li)
+			}
+		}
+		if !a.IsActive() {
+			if a.len != 0 {
+				return fmt.Errorf("%s: inactive but holds %d entities", name, a.len)
+			}
+			continue
+		}
+		if nd.HasRelation {
+			if a.index != t.table {
+				return fmt.Errorf("%s: stores index %d", name, a.index)
+			}
+		}
+		total += int(a.len)
+		var r uint32
+		for r = 0; r < a.len; r++ {
+			e := a.GetEntity(r)
+			if e.id == 0 || int(e.id) >= len(p.entities) || p.entities[e.id] != e {
+				return fmt.Errorf("%s: row %d holds %v which is not alive", name, r, e)
+			}
+			idx := &w.entities[e.id]
+			if idx.arch != a || idx.index != r {
+				return fmt.Errorf("%s: row %d holds %v but the index points elsewhere", name, r, e)
+			}
+		}
+	}
+	if total != alive {
+		return fmt.Errorf("tables hold %d entities, pool has %d alive", total, alive)
+	}
+
+	ln := w.nodes.Len()
+	var i int32
+	for i = 0; i < ln; i++ {
+		nd := w.nodes.Get(i)
+		if !nd.HasRelation {
+			if nd.archetypeMap != nil {
+				return fmt.Errorf("node %d: has a target map but no relation", i)
+			}
+			continue
+		}
+		n := nd.archetypes.Len()
+		active := 0
+		var j int32
+		for j = 0; j < n; j++ {
+			a := nd.archetypes.Get(j)
+			if !a.IsActive() {
+				continue
+			}
+			active++
+			if m, ok := nd.archetypeMap[a.RelationTarget]; !ok || m != a {
+				return fmt.Errorf("node %d: active table %d (target %v) is not what the target map holds for that target", i, j, a.RelationTarget)
+			}
+		}
+		if active != len(nd.archetypeMap) {
+			return fmt.Errorf("node %d: %d active tables, target map has %d entries", i, active, len(nd.archetypeMap))
+		}
+		seen := map[int32]bool{}
+		for _, fi := range nd.freeIndices {
+			if fi < 0 || fi >= n {
+				return fmt.Errorf("node %d: free list holds index %d (of %d tables)", i, fi, n)
+			}
+			if seen[fi] {
+				return fmt.Errorf("node %d: free list holds index %d twice", i, fi)
+			}
+			seen[fi] = true
+			if nd.archetypes.Get(fi).IsActive() {
+				return fmt.Errorf("node %d: free list holds active table %d", i, fi)
+			}
+		}
+		if int(n)-active != len(nd.freeIndices) {
+			return fmt.Errorf("node %d: %d inactive tables, free list has %d entries", i, int(n)-active, len(nd.freeIndices))
+		}
+	}
+
+	// ---- filter cache ----------------------------------------------------------------------
+	c := &w.filterCache
+	if len(c.indices) != len(c.filters) {
+		return fmt.Errorf("cache: %d index entries for %d filters", len(c.indices), len(c.filters))
+	}
+	for fi := range c.filters {
+		e := &c.filters[fi]
+		if idx, ok := c.indices[e.ID]; !ok || idx != fi {
+			return fmt.Errorf("cache: filter id %d is at position %d but indexed at %d", e.ID, fi, idx)
+		}
+		rf, isRel := e.Filter.(*RelationFilter)
+		inList := map[*archetype]int{}
+		for li, a := range e.Archetypes.pointers {
+			if a == nil {
+				return fmt.Errorf("cache: filter id %d holds a nil table", e.ID)
+			}
+			if _, dup := inList[a]; dup {
+				return fmt.Errorf("cache: filter id %d lists %s twice", e.ID, names[a])
+			}
+			inList[a] = li
+			if !a.IsActive() {
+				return fmt.Errorf("cache: filter id %d lists inactive %s", e.ID, names[a])
+			}
+			if !e.Filter.Matches(&a.Mask) {
+				return fmt.Errorf("cache: filter id %d lists %s which it does not match", e.ID, names[a])
+			}
+			if isRel && a.HasRelation() && a.RelationTarget != rf.Target {
+				return fmt.Errorf("cache: relation filter id %d (target %v) lists %s of target %v", e.ID, rf.Target, names[a], a.RelationTarget)
+			}
+		}
+		for _, t := range tables {
+			a := t.arch
+			if !a.IsActive() || !e.Filter.Matches(&a.Mask) {
+				continue
+			}
+			if isRel {
+				if !a.HasRelation() {
+					continue // selection of relation-less tables by a relation filter: not asserted here
+				}
+				if a.RelationTarget != rf.Target {
+					continue
+				}
+			}
+			if _, ok := inList[a]; !ok {
+				return fmt.Errorf("cache: filter id %d misses matching %s", e.ID, names[a])
+			}
+		}
+		if e.Indices != nil {
+			for a, pos := range e.Indices {
+				if li, ok := inList[a]; !ok || li != pos {
+					return fmt.Errorf("cache: filter id %d: removal index of %s is %d, list position is %d (listed: %t)", e.ID, names[a], pos, li, ok)
+				}
+			}
+			for a := range inList {
+				if a.HasRelation() {
+					if _, ok := e.Indices[a]; !ok {
+						return fmt.Errorf("cache: filter id %d: relation %s is listed but has no removal index", e.ID, names[a])
+					}
+				}
+			}
+		}
+	}
+
+	// ---- locks -----------------------------------------------------------------------------
+	bp := &w.locks.bitPool
+	held := w.locks.locks.TotalBitsSet()
+	if int(bp.length)-int(bp.available) != held {
+		return fmt.Errorf("locks: %d lock bits set, pool says %d issued and %d returned", held, bp.length, bp.available)
+	}
+	if int(bp.length) > MaskTotalBits {
+		return fmt.Errorf("locks: %d bits issued, limit is %d", bp.length, MaskTotalBits)
+	}
+	seenBit := map[uint8]bool{}
+	b := bp.next
+	for n := 0; n < int(bp.available); n++ {
+		if uint16(b) >= bp.length || seenBit[b] {
+			return fmt.Errorf("locks: free list of lock bits is broken at bit %d", b)
+		}
+		if w.locks.locks.Get(id(b)) {
+			return fmt.Errorf("locks: bit %d is on the free list but set", b)
+		}
+		seenBit[b] = true
+		b = bp.bits[b]
+	}
+	return nil
+}
+
+// VerifShape returns a canonical text of the hidden state. Tables are named by
+// (node index, table index), never by address.
+func (w *World) VerifShape() string {
+	sb := strings.Builder{}
+	tables := w.verifTables()
+	names := map[*archetype]string{}
+	for _, t := range tables {
+		names[t.arch] = fmt.Sprintf("%d/%d", t.node, t.table)
+	}
+	ln := w.nodes.Len()
+	var i int32
+	for i = 0; i < ln; i++ {
+		nd := w.nodes.Get(i)
+		ids := make([]int, len(nd.Ids))
+		for k, id := range nd.Ids {
+			ids[k] = int(id.id)
+		}
+		fmt.Fprintf(&sb, "node %d ids=%v rel=%t active=%t free=%v\n", i, ids, nd.HasRelation, nd.IsActive, nd.freeIndices)
+	}
+	for _, t := range tables {
+		a := t.arch
+		fmt.Fprintf(&sb, "table %s active=%t target=%d.%d len=%d cap=%d layouts=%d\n",
+			names[a], a.IsActive(), a.RelationTarget.id, a.RelationTarget.gen, a.len, a.cap, len(a.layouts))
+	}
+	p := &w.entityPool
+	fmt.Fprintf(&sb, "pool len=%d next=%d available=%d index=%d\n", len(p.entities), p.next, p.available, len(w.entities))
+	for i := 1; i < len(p.entities); i++ {
+		fmt.Fprintf(&sb, " %d:%d.%d", i, p.entities[i].id, p.entities[i].gen)
+	}
+	sb.WriteString("\n")
+	targets := []int{}
+	for i := 1; i < len(p.entities) && i/64 < len(w.targetEntities.data); i++ {
+		if w.targetEntities.Get(eid(i)) {
+			targets = append(targets, i)
+		}
+	}
+	fmt.Fprintf(&sb, "targets=%v\n", targets)
+	fids := make([]int, 0, len(w.filterCache.filters))
+	for fi := range w.filterCache.filters {
+		fids = append(fids, fi)
+	}
+	sort.Slice(fids, func(a, b int) bool { return w.filterCache.filters[fids[a]].ID < w.filterCache.filters[fids[b]].ID })
+	for _, fi := range fids {
+		e := &w.filterCache.filters[fi]
+		lst := make([]string, len(e.Archetypes.pointers))
+		for k, a := range e.Archetypes.pointers {
+			lst[k] = names[a]
+		}
+		fmt.Fprintf(&sb, "cache id=%d tables=%v mapped=%t\n", e.ID, lst, e.Indices != nil)
+	}
+	bits := []int{}
+	for k := 0; k < MaskTotalBits; k++ {
+		if w.locks.locks.Get(id(uint8(k))) {
+			bits = append(bits, k)
+		}
+	}
+	fmt.Fprintf(&sb, "locks=%v issued=%d returned=%d\n", bits, w.locks.bitPool.length, w.locks.bitPool.available)
+	fmt.Fprintf(&sb, "registry=%d resources=%d\n", w.registry.Count(), w.resources.registry.Count())
+	return sb.String()
+}
+
+// VerifLockCount returns the number of locks currently held.
+func (w *World) VerifLockCount() int {
+	return w.locks.locks.TotalBitsSet()
+}
+
+// VerifTableCounts returns the number of relation tables that are active, retired (inactive)
+// and how many of the active ones are empty with a dead target.
+func (w *World) VerifTableCounts() (active, retired, emptyDeadTarget int) {
+	for _, t := range w.verifTables() {
+		a := t.arch
+		if !a.node.HasRelation {
+			continue
+		}
+		if !a.IsActive() {
+			retired++
+			continue
+		}
+		active++
+		if a.len == 0 && !a.RelationTarget.IsZero() && !w.entityPool.Alive(a.RelationTarget) {
+			emptyDeadTarget++
+		}
+	}
+	return
+}
